@@ -490,7 +490,11 @@ fn exec_plan(id: &str, plan: &Value, ctx: &mut Ctx) {
                     }
                 }
                 "add_node" => {
-                    let parent = a.clone();
+                    let parent = if s["missing_parent"].as_bool().unwrap_or(false) { NodeId::new(w.universe[1].namespace, "no-such-parent") } else { a.clone() };
+                    let parent_existed = w.observe(&parent).0;
+                    if !parent_existed {
+                        ctx.fault("missing_parent");
+                    }
                     let requested = match s["id"].as_str().unwrap_or("null") {
                         "null" => NodeId::null(),
                         other => {
@@ -536,6 +540,9 @@ fn exec_plan(id: &str, plan: &Value, ctx: &mut Ctx) {
                                 outcome = res.status_code.name().to_string();
                                 if res.status_code.is_good() && remote_parent != 0 {
                                     ctx.violate("C34", "good-for-remote-parent", "", format!("AddNodes returned Good although the given parent is on server index {} and cannot reference the node", remote_parent));
+                                }
+                                if res.status_code.is_good() && !parent_existed && remote_parent == 0 {
+                                    ctx.violate("C34", "good-for-missing-parent", "", format!("AddNodes returned Good although the given parent {} does not exist, so nothing references the new node from it", key(&parent)));
                                 }
                                 if res.status_code.is_good() {
                                     let newid = res.added_node_id.clone();
@@ -621,7 +628,7 @@ impl Scenario for Nm {
         let (rule, faults): (&'static str, Vec<&'static str>) = match self.id {
             "C28" => ("run = seeded history of AddReferences / DeleteReferences / DeleteNodes (1-2 sessions through the real services) and insert_reference / delete_reference / delete (application actor on the public API) over 6 nodes x 3 reference types, biased towards opposite-direction pairs; after every step forward references, inverse references and has_reference of every node are compared with a triple-set model. non-trivial = history creates an opposite-direction pair, uses the second session or deletes a node; distinct = op/outcome hash.", vec!["opposite_direction_pair", "delete_one_of_opposite_pair", "second_session"]),
             "C29" => ("run = random small reference graph (HasComponent / HasProperty cycles, shared children, Organizes) then DeleteNodes with delete_target_references on a random node, through the service or the API; oracle: the call returns (worker process alive, watchdog), the node and everything it aggregates is gone, no reference mentions a removed node. non-trivial = the deleted node reaches an aggregation cycle or a shared child; distinct = op/outcome hash.", vec!["aggregation_cycle_or_shared_child"]),
-            _ => ("run = seeded history of AddNodes (requested and server-assigned ids, new and existing browse names, parents, reference types), AddReferences, DeleteNodes, DeleteReferences with numeric node ids pre-seeded in the range of the server's id counter; oracle: Good AddNodes => node exists and parent has a forward reference of the given type to it, Bad item => state digest unchanged, assigned ids never collide. non-trivial = a server-assigned id was requested or an item was rejected; distinct = op/outcome hash.", vec!["second_session"]),
+            _ => ("run = seeded history of AddNodes (requested and server-assigned ids, new and existing browse names, parents, reference types), AddReferences, DeleteNodes, DeleteReferences with numeric node ids pre-seeded in the range of the server's id counter; oracle: Good AddNodes => node exists and parent has a forward reference of the given type to it, Bad item => state digest unchanged, assigned ids never collide. non-trivial = a server-assigned id was requested or an item was rejected; distinct = op/outcome hash.", vec!["second_session", "missing_parent"]),
         };
         Info {
             level: "exploration",
@@ -706,7 +713,7 @@ impl Scenario for Nm {
                     match rng.below(10) {
                         0..=5 => {
                             let id = if rng.chance(0.6) { "null".to_string() } else { format!("x{}", rng.below(6)) };
-                            steps.push(json!({"op": "add_node", "a": if rng.chance(0.1) { 30 + rng.below(8) } else { a }, "ty": rng.below(3), "id": id, "name": *rng.pick(&names), "sess": rng.below(2), "parent_server_index": if rng.chance(0.1) { 1 } else { 0 }}));
+                            steps.push(json!({"op": "add_node", "a": if rng.chance(0.1) { 30 + rng.below(8) } else { a }, "ty": rng.below(3), "id": id, "name": *rng.pick(&names), "sess": rng.below(2), "parent_server_index": if rng.chance(0.1) { 1 } else { 0 }, "missing_parent": rng.chance(0.08)}));
                         }
                         6 => steps.push(json!({"op": "add_ref", "a": a, "b": b, "ty": rng.below(3), "forward": rng.chance(0.7), "via": "service", "sess": rng.below(2)})),
                         7 => steps.push(json!({"op": "del_ref", "a": a, "b": b, "ty": rng.below(3), "forward": rng.chance(0.7), "bidir": rng.chance(0.3), "via": "service", "sess": rng.below(2)})),
